@@ -266,4 +266,196 @@ theorem clause_segment_passes (fuel : Nat) (s : VM) (f : FUid) (h : HUid) (i : I
   simp only [slide, slideLoop, bind, EStateM.bind, h1, h2, h3, Bool.false_eq_true, if_false, if_true, pure, EStateM.pure,
     List.append_nil]
 
+/-- `goto end → MergeHeads` (branch of an or-template whose clause is one atom, or a clause that has completed) -/
+theorem branch_segment_merges (fuel : Nat) (s : VM) (f : FUid) (h : HUid) (i : Inst) (x : InstX) (cfg : FlowCfg) (hd : Head)
+    (l u : String) (p : Nat)
+    (H : HeadAt s f h i x cfg hd) (hown : x.ctxOwner = none) (hact : hd.status = .active)
+    (hgoto : cfg.elements[hd.pos]! = .goto (.lit (.bool true)) l) (hl : cfg.label l = some p)
+    (hp : p + 1 < cfg.elements.size) (hm : cfg.elements[p + 1]! = .merge u) (hne : hd.pos ≠ p + 1) :
+    ∃ hg1 hg2, slide (fuel + 2) f h s = .ok []
+      { s with ixs := IxS.apply (IxS.apply s.ixs (.setPos f h (p + 1) none) hg1) (.setStatus f h .merging none) hg2 } := by
+  have hnm1 : NotMatchAt cfg (p + 1) := notMatchAt_of cfg (p + 1) _ hp hm rfl
+  obtain ⟨hg1, h1⟩ := slideStep_goto (fuel + 1) s f h i x cfg hd l p H hown hgoto hl hne hnm1
+  have H1 := headAt_setPos s f h i x cfg hd (p + 1) H hne hp hg1
+  obtain ⟨hg2, h2⟩ := slideStep_merge_active fuel _ f h _ x cfg _ u H1 hm hact
+  refine ⟨hg1, hg2, ?_⟩
+  simp only [slide, slideLoop, bind, EStateM.bind, h1, h2, Bool.false_eq_true, if_false, if_true, pure, EStateM.pure, List.append_nil]
+
+/-! ### the heads of an instance as (uid, position, status) -/
+
+abbrev HCore := HUid × Nat × HeadStatus
+
+def hview (i : Inst) : List HCore := i.heads.map fun o => (o.uid, o.pos, o.status)
+
+/-- set position and status of the entry of head `h` -/
+def setCore (h : HUid) (p : Nat) (st : HeadStatus) (t : HCore) : HCore := if t.1 = h then (t.1, p, st) else t
+def setPosCore (h : HUid) (p : Nat) (t : HCore) : HCore := if t.1 = h then (t.1, p, t.2.2) else t
+def setStCore (h : HUid) (st : HeadStatus) (t : HCore) : HCore := if t.1 = h then (t.1, t.2.1, st) else t
+
+theorem hview_setPos (i : Inst) (h : HUid) (p : Nat) (nm : Option String) :
+    hview (i.modifyHead h fun y => { y with pos := p, elem := nm }) = (hview i).map (setPosCore h p) := by
+  simp only [hview, Inst.modifyHead, List.map_map]
+  apply List.map_congr_left
+  intro o _
+  simp only [Function.comp, setPosCore]
+  split <;> rfl
+
+theorem hview_setStatus (i : Inst) (h : HUid) (st : HeadStatus) (nm : Option String) :
+    hview (i.modifyHead h fun y => { y with status := st, elem := nm }) = (hview i).map (setStCore h st) := by
+  simp only [hview, Inst.modifyHead, List.map_map]
+  apply List.map_congr_left
+  intro o _
+  simp only [Function.comp, setStCore]
+  split <;> rfl
+
+theorem waitingAt_hview (i : Inst) (q : Nat) :
+    waitingAt i q = ((hview i).filter fun t => t.2.2 ≠ .inactive && t.2.1 = q).length := by
+  simp only [waitingAt, hview, List.filter_map, List.length_map]
+  rfl
+
+
+theorem map_setPosCore_of_not_mem (h : HUid) (q : Nat) (l : List HCore) (hn : h ∉ l.map (·.1)) :
+    l.map (setPosCore h q) = l := by
+  induction l with
+  | nil => rfl
+  | cons t l ih =>
+    have h1 : t.1 ≠ h := fun e => hn (by simp [e])
+    have h2 : h ∉ l.map (·.1) := fun e => hn (by simp only [List.map_cons, List.mem_cons]; exact Or.inr e)
+    simp only [List.map_cons, ih h2, setPosCore, h1, if_false]
+
+/-- moving a (counted-elsewhere) live head onto `q` raises the number of live heads on `q` by one -/
+theorem count_after_move (h : HUid) (q : Nat) : ∀ (l : List HCore), (l.map (·.1)).Nodup →
+    ∀ m st, (h, m, st) ∈ l → st ≠ HeadStatus.inactive → m ≠ q →
+    ((l.map (setPosCore h q)).filter fun t => t.2.2 ≠ .inactive && t.2.1 = q).length
+      = (l.filter fun t => t.2.2 ≠ .inactive && t.2.1 = q).length + 1 := by
+  intro l
+  induction l with
+  | nil => intro _ m st hmem; cases hmem
+  | cons t l ih =>
+    intro hnd m st hmem hst hmq
+    have hnd' : (l.map (·.1)).Nodup := (List.nodup_cons.1 hnd).2
+    have hnot : t.1 ∉ l.map (·.1) := (List.nodup_cons.1 hnd).1
+    rcases List.mem_cons.1 hmem with heq | hmem'
+    · subst heq
+      simp only [List.map_cons, map_setPosCore_of_not_mem h q l hnot, setPosCore, if_true]
+      rw [List.filter_cons_of_pos (by simp [hst]), List.filter_cons_of_neg (by simp [hmq])]
+      simp
+    · have hin : h ∈ l.map (·.1) := List.mem_map.2 ⟨_, hmem', rfl⟩
+      have h1 : t.1 ≠ h := fun e => hnot (e ▸ hin)
+      simp only [List.map_cons, setPosCore, h1, if_false]
+      by_cases hc : (t.2.2 ≠ HeadStatus.inactive && t.2.1 = q) = true
+      · rw [List.filter_cons_of_pos (by simpa using hc), List.filter_cons_of_pos (by simpa using hc)]
+        simp only [List.length_cons]
+        have := ih hnd' m st hmem' hst hmq
+        omega
+      · rw [List.filter_cons_of_neg (by simpa using hc), List.filter_cons_of_neg (by simpa using hc)]
+        exact ih hnd' m st hmem' hst hmq
+
+theorem setPosCore_comp (h : HUid) (a b : Nat) (t : HCore) : setPosCore h b (setPosCore h a t) = setPosCore h b t := by
+  simp only [setPosCore]; split <;> simp_all
+
+/-- with unique uids, moving head `h` = rewriting its one entry -/
+theorem map_setPos_eq_setCore (h : HUid) (q : Nat) (l : List HCore) (hnd : (l.map (·.1)).Nodup) (m : Nat) (st : HeadStatus)
+    (hmem : (h, m, st) ∈ l) : l.map (setPosCore h q) = l.map (setCore h q st) := by
+  apply List.map_congr_left
+  intro t ht
+  simp only [setPosCore, setCore]
+  split
+  · rename_i e
+    have := eq_of_mem_of_nodup_map (fun (t : HCore) => t.1) l hnd t ht (h, m, st) hmem e
+    rw [this]
+  · rfl
+
+theorem map_setSt_setPos_eq_setCore (h : HUid) (q : Nat) (st' : HeadStatus) (l : List HCore) :
+    (l.map (setPosCore h q)).map (setStCore h st') = l.map (setCore h q st') := by
+  rw [List.map_map]
+  apply List.map_congr_left
+  intro t _
+  simp only [Function.comp, setPosCore, setStCore, setCore]
+  split <;> simp_all
+
+theorem mem_hview_of_findHead (i : Inst) (h : HUid) (hd : Head) (hh : i.findHead h = some hd) :
+    (h, hd.pos, hd.status) ∈ hview i := by
+  have hm : hd ∈ i.heads := List.mem_of_find?_eq_some hh
+  have hu := findHead_uid hh
+  simp only [hview, List.mem_map]
+  exact ⟨hd, hm, by rw [hu]⟩
+
+/-- what `_advance_head_front` does first with an ACTIVE head that matched: `head.position += 1`, then `slide` -/
+def advanceMember (fuel : Nat) (f : FUid) (h : HUid) : M (List Key) := do
+  match ← getHead? (f, h) with
+  | none => pure []
+  | some hd =>
+    setHeadPos (f, h) (hd.pos + 1)
+    slide fuel f h
+
+/-- where the end of an and-clause is: `label l` at `pe`, then `WaitForHeads n`, then `MergeHeads u` -/
+structure ClauseShape (cfg : FlowCfg) (l u : String) (pe n : Nat) : Prop where
+  hl : cfg.label l = some pe
+  hsize : pe + 2 < cfg.elements.size
+  hw : cfg.elements[pe + 1]! = .waitHeads n
+  hm : cfg.elements[pe + 2]! = .merge u
+
+/-- **One member of an and-clause, at CoreVM level.**  The head `h` is ACTIVE on its `match` element, followed by `goto l`.
+    Advancing it (position + 1, `slide`) rewrites exactly its own entry in the list of heads: it parks on `WaitForHeads n`
+    (ACTIVE) when the heads parked there, itself included, are fewer than `n`, and otherwise ends MERGING on `MergeHeads`.
+    No other head, nothing outside the index component changes, no new head is created. -/
+theorem advanceMember_spec (fuel : Nat) (s : VM) (f : FUid) (h : HUid) (i : Inst) (x : InstX) (cfg : FlowCfg) (hd : Head)
+    (l u : String) (pe n : Nat)
+    (H : HeadAt s f h i x cfg hd) (hown : x.ctxOwner = none) (hact : hd.status = .active)
+    (C : ClauseShape cfg l u pe n)
+    (hgoto : cfg.elements[hd.pos + 1]! = .goto (.lit (.bool true)) l) (hlt : hd.pos + 1 < pe + 1)
+    (hnd : ((hview i).map (·.1)).Nodup) :
+    ∃ s' i', advanceMember (fuel + 3) f h s = .ok [] s' ∧ FlowAt s' f i' x cfg ∧ s'.r = s.r ∧
+      hview i' = (hview i).map
+        (if ((hview i).filter fun t => t.2.2 ≠ .inactive && t.2.1 = pe + 1).length + 1 ≥ n
+          then setCore h (pe + 2) .merging else setCore h (pe + 1) .active) := by
+  have hsz := C.hsize
+  have hnm0 : NotMatchAt cfg (hd.pos + 1) := notMatchAt_of cfg (hd.pos + 1) _ (by omega) hgoto rfl
+  obtain ⟨hg0, h0⟩ := setHeadPos_ok s f h i x cfg hd (hd.pos + 1) H.toFlowAt H.hh (by omega) hnm0
+  have H0 := headAt_setPos s f h i x cfg hd (hd.pos + 1) H (by omega) (by omega) hg0
+  have hmem := mem_hview_of_findHead i h hd H.hh
+  -- the number of heads on the wait element once `h` has arrived
+  have hcnt : waitingAt ((i.modifyHead h fun y => { y with pos := hd.pos + 1, elem := none }).modifyHead h
+        fun y => { y with pos := pe + 1, elem := none }) (pe + 1)
+      = ((hview i).filter fun t => t.2.2 ≠ .inactive && t.2.1 = pe + 1).length + 1 := by
+    rw [waitingAt_hview, hview_setPos, hview_setPos, List.map_map]
+    have : (setPosCore h (pe + 1) ∘ setPosCore h (hd.pos + 1)) = setPosCore h (pe + 1) := by
+      funext t; exact setPosCore_comp h _ _ t
+    rw [this]
+    exact count_after_move h (pe + 1) (hview i) hnd hd.pos hd.status hmem H.hst (by omega)
+  have hunf : ∀ (r : EStateM.Result VMErr VM (List Key)),
+      slide (fuel + 3) f h { s with ixs := s.ixs.apply (.setPos f h (hd.pos + 1) none) hg0 } = r →
+      advanceMember (fuel + 3) f h s = r := by
+    intro r hr
+    simp only [advanceMember, bind, EStateM.bind, getHead?, getIx, get, getThe, MonadStateOf.get, EStateM.get, pure, EStateM.pure,
+      H.hi, Option.bind, H.hh, h0, hr]
+  by_cases hc : ((hview i).filter fun t => t.2.2 ≠ .inactive && t.2.1 = pe + 1).length + 1 ≥ n
+  · obtain ⟨hg1, hg2, hg3, hsl⟩ := clause_segment_passes fuel _ f h _ x cfg _ l u pe n H0 hown hact hgoto C.hl C.hsize C.hw C.hm
+      (by simp; omega) (by rw [hcnt]; exact hc)
+    have H1 := headAt_setPos _ f h _ x cfg _ (pe + 1) H0 (by simp; omega) (by omega) hg1
+    have H2 := headAt_setPos _ f h _ x cfg _ (pe + 2) H1 (by simp) C.hsize hg2
+    have H3 := headAt_setStatus _ f h _ x cfg _ .merging H2 (by simp [hact]) (by decide) hg3
+    refine ⟨_, _, hunf _ hsl, H3.toFlowAt, rfl, ?_⟩
+    rw [if_pos hc, hview_setStatus, hview_setPos, hview_setPos, hview_setPos]
+    simp only [List.map_map]
+    apply List.map_congr_left
+    intro t _
+    simp only [Function.comp, setPosCore, setStCore, setCore]
+    split <;> simp_all
+  · obtain ⟨hg1, hsl⟩ := clause_segment_parks (fuel + 1) _ f h _ x cfg _ l pe n H0 hown hgoto C.hl (by omega) C.hw
+      (by simp; omega) (by rw [hcnt]; omega)
+    have H1 := headAt_setPos _ f h _ x cfg _ (pe + 1) H0 (by simp; omega) (by omega) hg1
+    refine ⟨_, _, hunf _ hsl, H1.toFlowAt, rfl, ?_⟩
+    rw [if_neg hc, hview_setPos, hview_setPos]
+    simp only [List.map_map]
+    apply List.map_congr_left
+    intro t ht
+    simp only [Function.comp, setPosCore, setCore]
+    split
+    · rename_i e
+      have := eq_of_mem_of_nodup_map (fun (t : HCore) => t.1) (hview i) hnd t ht (h, hd.pos, hd.status) hmem e
+      rw [this]; simp [hact]
+    · simp_all
+
 end NemoVerif.CoreVM
